@@ -177,12 +177,41 @@ func (m *Mast) store(node *mastNode) (interface{}, error) {
 
 const debugMutation = false
 
+// pendingStore is a node whose serialized form is ready to be written. Nothing
+// about the in-memory node changes until every write of the flush has
+// succeeded (see Mast.flush), so a failed flush leaves the tree as it was.
+type pendingStore struct {
+	node    *mastNode
+	hash    string
+	encoded []byte
+	// links are the node's links with in-memory children replaced by their hashes
+	links     []interface{}
+	persisted bool // the cache says this node is already in the store
+}
+
+// commit marks the node as persisted under its hash.
+func (p *pendingStore) commit(persist Persist, cache NodeCache) {
+	node := p.node
+	node.Link = p.links
+	node.dirty = false
+	if debugMutation {
+		node.expected = node.xcopy()
+	}
+	node.source = &p.hash
+	node.shared = true
+	if cache != nil && !p.persisted {
+		cache.Add(fmt.Sprintf("%s/%s", persist.NodeURLPrefix(), p.hash), node)
+	}
+}
+
+// store serializes the node and its in-memory descendants, appending what
+// needs writing to pending (children first), and returns the node's hash. It
+// does not modify any node.
 func (node *mastNode) store(
-	ctx context.Context,
 	persist Persist,
 	cache NodeCache,
 	marshal func(interface{}) ([]byte, error),
-	storeQ chan func() error,
+	pending *[]*pendingStore,
 ) (string, error) {
 	if !node.dirty {
 		if debugMutation && node.expected != nil {
@@ -209,6 +238,7 @@ func (node *mastNode) store(
 	}
 
 	linkCount := 0
+	links := make([]interface{}, len(node.Link), cap(node.Link))
 	for i, il := range node.Link {
 		if il == nil {
 			continue
@@ -216,18 +246,19 @@ func (node *mastNode) store(
 		linkCount++
 		switch l := il.(type) {
 		case string:
-			break
+			links[i] = l
 		case *mastNode:
-			newLink, err := l.store(ctx, persist, cache, marshal, storeQ)
+			newLink, err := l.store(persist, cache, marshal, pending)
 			if err != nil {
 				return "", fmt.Errorf("flush: %w", err)
 			}
-			node.Link[i] = newLink
+			links[i] = newLink
 		default:
 			return "", fmt.Errorf("don't know how to flush link of type %T", l)
 		}
 	}
 	trimmed := *node
+	trimmed.Link = links
 	if linkCount == 0 {
 		trimmed.Link = nil
 	}
@@ -237,33 +268,16 @@ func (node *mastNode) store(
 	}
 	hashBytes := blake2b.Sum256(encoded)
 	hash := base64.RawURLEncoding.EncodeToString(hashBytes[:])
-	cacheKey := fmt.Sprintf("%s/%s", persist.NodeURLPrefix(), hash)
-	if cache != nil {
-		if cache.Contains(cacheKey) {
-			return hash, nil
-		}
-	}
-	storeQ <- func() error {
-		err = persist.Store(ctx, hash, encoded)
-		if err != nil {
-			return fmt.Errorf("persist store: %w", err)
-		}
-		if cache != nil {
-			cache.Add(cacheKey, node)
-		}
-		return nil
-	}
 	if node.dirty && node.source != nil && *node.source != hash {
 		fmt.Printf("expected node %s %v\n", *node.source, node.expected)
 		fmt.Printf("found    node %s %v\n", hash, node)
 		panic(fmt.Errorf("whoa, somebody modified %v==>%v after loading (keys were %v, became %v)",
 			*node.source, hash, node.expected.Key, node.Key))
 	}
-	node.dirty = false
-	if debugMutation {
-		node.expected = node.xcopy()
+	p := &pendingStore{node: node, hash: hash, encoded: encoded, links: links}
+	if cache != nil {
+		p.persisted = cache.Contains(fmt.Sprintf("%s/%s", persist.NodeURLPrefix(), hash))
 	}
-	node.source = &hash
-	node.shared = true
+	*pending = append(*pending, p)
 	return hash, nil
 }
